@@ -4,6 +4,8 @@ from ..lib import driver, gen, implrun, ser
 
 ID = "C01"
 LEAN_MODULES = ["TakVerif.Props.C01"]
+# cross-operation sessions (lib/session.py): which operations this property judges
+SESSION = {"kinds": {"move"}}
 RULE = (
     "positions: random legal play (6 biased policies, sizes 3..8, standard+custom reserves) and constructed boards; "
     "moves: EVERY well-formed move of the size for each sampled position plus a random and a bounded-exhaustive "
